@@ -606,6 +606,43 @@ def run_asn1c(text, flags=(), name="m.asn1"):
         shutil.rmtree(d, ignore_errors=True)
 
 
+def run_asn1c_batch(texts, flags=(), name="m.asn1", jobs=None):
+    """many compiler runs, one scratch directory each, driven by xargs (spawning tens of thousands of processes from
+    the python process itself is slow); returns the list of dict(exit, signal, diag, files, stderr)"""
+    import subprocess, tempfile, shutil
+    m = lib.ensure_mirror()
+    root = tempfile.mkdtemp(prefix="a1cb-", dir=lib.SCRATCH)
+    try:
+        for i, t in enumerate(texts):
+            d = os.path.join(root, str(i))
+            os.mkdir(d)
+            open(os.path.join(d, name), "w").write(t)
+        script = os.path.join(root, "one.sh")
+        open(script, "w").write("#!/bin/sh\ncd \"$1\" || exit 0\ntimeout 60 %s -S %s -no-gen-example %s %s >out.txt 2>err.txt\necho $? >rc.txt\n"
+                                % (m["asn1c"], m["skeletons"], " ".join(flags), name))
+        os.chmod(script, 0o755)
+        lst = os.path.join(root, "dirs.txt")
+        open(lst, "w").write("".join(os.path.join(root, str(i)) + "\n" for i in range(len(texts))))
+        subprocess.run("xargs -a %s -P %d -n 1 %s" % (lst, jobs or lib.NCPU, script), shell=True, check=False)
+        out = []
+        for i in range(len(texts)):
+            d = os.path.join(root, str(i))
+            try:
+                rc = int(open(os.path.join(d, "rc.txt")).read().strip() or "0")
+            except (OSError, ValueError):
+                rc = 255
+            try:
+                err = open(os.path.join(d, "err.txt"), errors="replace").read()
+            except OSError:
+                err = ""
+            sig = rc - 128 if rc > 128 and rc != 255 else (14 if rc == 124 else 0)     # sh reports a fatal signal as 128 + n
+            files = [f for f in os.listdir(d) if f.endswith((".c", ".h"))]
+            out.append({"exit": 0 if sig else rc, "signal": sig, "diag": bool(err.strip()), "files": len(files), "stderr": err[-300:]})
+        return out
+    finally:
+        shutil.rmtree(root, ignore_errors=True)
+
+
 def check_C11(tier, seed):
     from concurrent.futures import ThreadPoolExecutor
     t0 = time.time()
@@ -622,12 +659,10 @@ def check_C11(tier, seed):
         raise Infra("vacuous module universe: %r" % verdicts)
     lib.ensure_mirror()
 
-    def one(s):
-        r = run_asn1c(Module(s["mod"]).text())
+    # -R: tables only (the support code is not copied 40 000 times); parsing, fixing and code generation are the same
+    evs = run_asn1c_batch([Module(s["mod"]).text() for s in scns], flags=("-R",))
+    for s, r in zip(scns, evs):
         r.update({"id": s["id"], "a": "Asn1c"})
-        return r
-    with ThreadPoolExecutor(lib.NCPU) as ex:
-        evs = list(ex.map(one, scns))
     mism, tot = lib.judge("MC_Legal", None, scns, evs, constants=consts, shards=8)
     mism = expand(mism)
     res.states += tot["distinct"]
